@@ -795,6 +795,10 @@ REENT_MUTS_A6 = [
     (("updateValues", "add"), "values"), (("updateValues", "label"), "values"), (("addComponent", None), "none"),
     (("replaceComponent", "x"), "x"), (("removeComponent", "z"), "z"), (("removeComponent", "x"), "x"),
     (("updateId", "z"), "z"),
+    # the same in a world without the derived component (refreshed once before): its removal makes the data
+    # collection re-sync the links, i.e. clear the caches once more - which hides a missing / misplaced clear
+    (("updateValues", "drop"), "values", "nos"), (("updateValues", "drop"), "z", "nos"), (("updateValues", "dropx"), "x", "nos"),
+    (("removeComponent", "z"), "z", "nos"),
 ]
 
 
@@ -848,6 +852,8 @@ class Mutations(HistFamily):
     budget_share = 3.0
 
     def cases(self, tier, rng):
+        # the re-entrant stratum first (a family cut short by its deadline must not lose it)
+        yield from self.reentrant(tier)
         dkey = "A6"
         views = [["none"], ["sl", 1, 5, None]]
         contexts = CONTEXTS if tier == "thorough" else CONTEXTS[:9]
@@ -896,7 +902,6 @@ class Mutations(HistFamily):
                     prog.append([mut[0], target if mut[1] == "T" else 0, 3])
                 prog += [ev(x) for x in post]
                 yield [[dkey], views, leaves, prog]
-        yield from self.reentrant(tier)
 
     def reentrant(self, tier):
         """Re-entrant stratum: mutation kind x message class x which selection the listener evaluates x whether the
@@ -906,7 +911,8 @@ class Mutations(HistFamily):
         views = [["none"], ["sl", 1, 5, None]]
         thorough = tier == "thorough"
         ctxs = [CONTEXTS[i] for i in ((0, 1, 2, 4, 5, 7) if thorough else (0, 1, 2, 4))]
-        for (mk, affected) in REENT_MUTS_A6:
+        for (mk, affected, *flags) in REENT_MUTS_A6:
+            prelude = [MU("updateValues", 0, "same")] if "nos" in flags else []
             lvs = LEAVES_ON[affected]
             if not thorough:
                 lvs = lvs[:3]
@@ -926,7 +932,10 @@ class Mutations(HistFamily):
                 sels = {"root": ["eval", root, 0, 0, "kw"], "target": ["eval", target, 0, 0, "pos"],
                         "rootv1": ["eval", root, 0, 1, "kw"], "stat": ["stat", root, 0]}
                 lsels = ["root", "target", "stat"] if path else ["root", "stat"]
+                base = base + prelude
                 for msg in MUT_MSGS[mk]:
+                    if prelude and msg not in ("remove", "compsChanged"):
+                        continue
                     for lsel in lsels:
                         if lsel == "stat" and not thorough and msg not in ("compsChanged", "numerical"):
                             continue
@@ -952,6 +961,7 @@ class EditSubset(HistFamily):
     budget_share = 1.5
 
     def cases(self, tier, rng):
+        yield from self.reentrant(tier)
         for dkey in (["A6", "A34"] if tier == "quick" else ["A6", "A34", "A232"]):
             nd = NDIM[dkey]
             views = [["none"], B.VIEWS_BY_NDIM[nd][1]]
@@ -972,7 +982,6 @@ class EditSubset(HistFamily):
                             if not (tree == "L" and kind in ("slice", "pixel")):    # compute_statistic bypasses to_mask there
                                 prog.append(["stat", root, 0])
                             yield [[dkey], views, leaves, prog]
-        yield from self.reentrant(tier)
 
     def reentrant(self, tier):
         """Re-entrant stratum on the edit-subset path (what a viewer does: `subset.to_mask()` in its handler):
@@ -987,7 +996,8 @@ class EditSubset(HistFamily):
         for dkey, muts in worlds:
             nd = NDIM[dkey]
             views = [["none"], B.VIEWS_BY_NDIM[nd][1]]
-            for (mk, affected) in muts:
+            for (mk, affected, *flags) in muts:
+                prelude = [MU("updateValues", 0, "same")] if "nos" in flags else []
                 if affected == "world":
                     lvs = [("range", 5)]
                 elif dkey == "A34":
@@ -998,11 +1008,13 @@ class EditSubset(HistFamily):
                     leaves = [["base", 0, 0], [kind, var, 0], ["inequality", 1, 0], ["range", 4, 0]]
                     base = [["leaf", 1], ["leaf", 2]]
                     root = build(tree, base, 0, 1)
-                    base += [["edit", "replace", root]]
+                    base += [["edit", "replace", root]] + prelude
                     post = [["evalcur", 0, 0], ["evalcur", 0, 1], ["eval", root, 0, 0, "kw"], ["hist", root, 0, 8]]
                     if not (tree == "L" and kind in ("slice", "pixel")):
                         post.append(["stat", root, 0])
                     for msg in MUT_MSGS[mk]:
+                        if prelude and msg not in ("remove", "compsChanged"):
+                            continue
                         for lev in (["evalcur", 0, 0], ["stat", root, 0], ["evalcur", 0, 1]):
                             if lev[0] != "evalcur" and not thorough and msg not in ("compsChanged", "numerical"):
                                 continue
@@ -1547,6 +1559,9 @@ class HistogramLayer(Family):
              "nothing", "normalize", "x_att_twin", "retype", "hash_min", "n_bin_frac"]
 
     def cases(self, tier, rng):
+        # the fine-step stratum first: when the family is cut short by its deadline (a loaded machine, the thorough
+        # generators inside the quick budget after a change of the transcribed code) it is the part that matters most
+        yield from self.fine_cases(tier)
         L = 2 if tier == "quick" else 3
         old, extra = self.PERTS[:10], self.PERTS[10:]
         for layer in ("data", "subset"):
@@ -1557,6 +1572,8 @@ class HistogramLayer(Family):
                     if n == 3 and any(p in extra for p in (seq[0], seq[2])):
                         continue      # length 3: the object perturbations only in the middle
                     yield [layer] + list(seq)
+
+    def fine_cases(self, tier):
         thorough = tier == "thorough"
         mags = ["one", "e5", "jd", "e9", "em6", "njd"] + (["half", "e15", "none"] if thorough else [])
         for mag in mags + ["zero"]:
